@@ -106,6 +106,7 @@ func openReal(g Geometry, m *Media, opt OpenOptions) *Store {
 	if g.RawReads {
 		base = rawFactory{}
 	}
+	base = withIntegrityCache(g, base)
 	s.RBF = &TrackingRBF{Base: base}
 	cr := creator{BlobAccessCreator: inner, rbf: s.RBF, lock: &s.Lock}
 
